@@ -618,9 +618,9 @@ class Exec(object):
         if mt is None:
             return
         bars = [self.world.bars[i] for i in mt.bars]
-        if not all(self.world.bar_consistent(b) for b in bars) or len(mt.obj.bars) != len(bars):
-            self.probes["skipped_precondition"] += 1
-            return
+        [self.world.bar_consistent(b) for b in bars]  # observation only (probe)
+        if len(mt.obj.bars) != len(bars):
+            self.probes["library_track_differs_from_what_was_built"] += 1  # never on the unchanged tree; judged by the model
         entries = [e for b in bars for e in b.entries]
         feats = {"tempo_jump": any(e.get("bpm") is not None for e in entries), "bars": len(bars)}
         if op.get("dflt"):
@@ -793,8 +793,10 @@ class Exec(object):
 
     def _tracks_voices(self, tracks):
         n = len(tracks[0].bars)
-        if n == 0 or any(len(t.bars) != n or len(t.obj.bars) != n for t in tracks):
+        if n == 0 or any(len(t.bars) != n for t in tracks):
             return None
+        if any(len(t.obj.bars) != n for t in tracks):
+            self.probes["library_track_differs_from_what_was_built"] += 1  # never on the unchanged tree; judged by the model
         return [[self.world.bars[t.bars[i]] for t in tracks] for i in range(n)]
 
     def _instr_expected(self, tracks, chs):
@@ -949,7 +951,7 @@ def _gen_entries(rng, syms, channel, rest_p, lead_rest, bpm_p, empty_nc_p=0.1):
         else:
             e = {"notes": world.gen_chord(rng, channel), "v": sym}
             if rng.random() < bpm_p:
-                e["bpm"] = rng.choice([20, 30, 60, 90, 120, 121, 180, 240, 400, rng.randrange(20, 401)])
+                e["bpm"] = rng.choice([20, 30, 60, 90, 120, 121, 180, 240, 400, rng.randrange(20, 401), 67.5, 90.25, rng.randrange(80, 800) / 4.0])
         out.append(e)
     return out
 
@@ -1087,6 +1089,14 @@ def generate(rng, prop, tier):
                 ops.append({"op": "setnote", "bar": b, "entry": rng.randrange(8), "pos": rng.randrange(5), "note": world.gen_note(rng)})
             if rng.random() < 0.05:
                 ops.append({"op": "unison", "bar": b, "entry": rng.randrange(8), "ch": rng.randrange(16)})
+            if rng.random() < 0.05:
+                ops.append({"op": "transpose", "level": rng.choice(["bar", "nc"]), "ref": b, "entry": rng.randrange(8), "interval": rng.choice(TRANSPOSE_BY), "up": rng.random() < 0.6})
+            if rng.random() < 0.04:
+                ops.append({"op": "peek", "what": rng.choice(["bar", "nc"]), "ref": b, "entry": rng.randrange(8), "n": rng.choice([1, 1, 2])})
+        if rng.random() < 0.06:
+            ops.append({"op": "transpose", "level": "track", "ref": t, "interval": rng.choice(TRANSPOSE_BY), "up": rng.random() < 0.6})
+        if rng.random() < 0.08:
+            ops.append({"op": "peek", "what": "track", "ref": t, "n": rng.choice([1, 1, 2])})
         churn_between()
         churn_inside()
         ops.append({"op": "play_track", "track": t, "ch": rng.randrange(16), "bpm": bpm(), "dflt": rng.random() < 0.12})
@@ -1135,6 +1145,11 @@ def generate(rng, prop, tier):
                     ops.append({"op": "setnote", "bar": b, "entry": rng.randrange(8), "pos": rng.randrange(5), "note": world.gen_note(rng, chans[v])})
             if late:
                 ops.append({"op": "setinstr", "track": t})
+            if rng.random() < 0.05:
+                lvl = rng.choice(["track", "bar", "nc"])
+                ops.append({"op": "transpose", "level": lvl, "ref": t if lvl == "track" else rng.choice(per_voice[v]), "entry": rng.randrange(8), "interval": rng.choice(TRANSPOSE_BY), "up": rng.random() < 0.6})
+            if rng.random() < 0.06:
+                ops.append({"op": "peek", "what": "track", "ref": t, "n": rng.choice([1, 1, 2])})
         churn_between()
         if comp:
             ops.append({"op": "comp"})
@@ -1223,6 +1238,9 @@ def simplify_op(prop, op):
         if len(op["notes"]) > 1:
             out.append(dict(op, notes=op["notes"][:1]))
     return out
+
+
+TRANSPOSE_BY = ["2", "3", "b3", "4", "5", "#4", "6", "b7", "7", "1", "#1", "b2"]
 
 
 def tiers(prop):
